@@ -151,7 +151,7 @@ pub fn adversarial(thorough: bool) -> Adversarial {
       scripts.push(vec![a, b]);
     }
   }
-  let seq_len = if thorough { 5 } else { 4 };
+  let seq_len = 4;
   // sequences always start inside an envelope header so that the parser is deep in its state machine
   for s in sequences(TOKENS.len(), seq_len) {
     let mut bytes = vec![0x00, 0x63, 0x03, b'o', b'r', b'd'];
